@@ -46,6 +46,7 @@ type Run struct {
 
 	Holds   []HoldRule // schedule rules: park a goroutine at a hook point until another process has made progress
 	holdsMu sync.Mutex
+	parked  map[string]int // hook point -> number of times a goroutine was parked there by a hold rule
 
 	copyMu   sync.Mutex
 	copyHeld map[int][]string // copy reader epoch -> file names of its file segments
@@ -105,6 +106,25 @@ func (r *Run) AddHold(h HoldRule) {
 	r.holdsMu.Unlock()
 }
 
+// Parked reports how often a hold rule has parked a goroutine at point.
+func (r *Run) Parked(point string) int {
+	r.holdsMu.Lock()
+	defer r.holdsMu.Unlock()
+	return r.parked[point]
+}
+
+// WaitParked waits until Parked(point) >= n.
+func (r *Run) WaitParked(point string, n int, timeout time.Duration) bool {
+	deadline := time.Now().Add(timeout)
+	for time.Now().Before(deadline) {
+		if r.Parked(point) >= n {
+			return true
+		}
+		time.Sleep(200 * time.Microsecond)
+	}
+	return false
+}
+
 // SetHolds replaces the hold rules (safe while the index is running).
 func (r *Run) SetHolds(h []HoldRule) {
 	r.holdsMu.Lock()
@@ -159,6 +179,12 @@ func Start(dir string, wl Workload, seed int64, perturb float64) (*Run, error) {
 				hit1 = &hc
 				break
 			}
+		}
+		if hit1 != nil {
+			if r.parked == nil {
+				r.parked = map[string]int{}
+			}
+			r.parked[point]++
 		}
 		r.holdsMu.Unlock()
 		if hit1 != nil {
@@ -413,8 +439,35 @@ func (r *Run) Sample(tag string) Event {
 			inel = append(inel, f)
 		}
 	}
+	// unions of the two reads (for "is this file protected by SOMETHING" questions)
+	anyNamed := map[string]bool{}
+	for _, b := range []map[uint64][]string{b1, b2} {
+		for _, fs := range b {
+			for _, f := range fs {
+				anyNamed[f] = true
+			}
+		}
+	}
+	namedAny := []string{}
+	for f := range anyNamed {
+		namedAny = append(namedAny, f)
+	}
+	sort.Strings(namedAny)
+	anyInel := map[string]bool{}
+	for _, f := range st1.Ineligible {
+		anyInel[f] = true
+	}
+	for _, f := range st2.Ineligible {
+		anyInel[f] = true
+	}
+	inelAny := []string{}
+	for f := range anyInel {
+		inelAny = append(inelAny, f)
+	}
+	sort.Strings(inelAny)
 	atomic.AddInt64(&r.Samples, 1)
 	return r.Rec.Emit("Sample", map[string]any{"tag": tag, "disk": strsAny(disk), "bolt": bolt,
+		"namedAny": strsAny(namedAny), "inelAny": strsAny(inelAny),
 		"root": rootF, "rootEpoch": int(root1.epoch), "rootStable": rootStable,
 		"readers": readers, "copy": copyF, "copyheld": strsAny(intersect(ch1, ch2)), "inel": inel, "keep": r.Keep})
 }
